@@ -94,6 +94,18 @@ def model_finalise(fs, pending):
     return fs
 
 
+def impl_pending(world):
+    """The writer's own pending table (hidden state), read defensively: its layout is an
+    implementation detail, so fall back to a textual form if it changes."""
+    out = []
+    for entry in getattr(world['writer'], 'open_files', ()):
+        try:
+            out.append([os.path.relpath(str(entry[1]), world['work']), str(entry[2])])
+        except Exception:   # pylint: disable=broad-except
+            out.append([repr(entry).replace(world['base'], '')])
+    return out
+
+
 class Spec:
     def initials(self):
         return list(INITIALS)
@@ -148,7 +160,7 @@ class Spec:
     def canon(self, world):
         return {'dir': sorted((k, v.decode()) for k, v in listing(world['work']).items()),
                 'pending': [[p, m, c.decode()] for p, m, c in world['pending']],
-                'impl_pending': [[os.path.relpath(str(fp), world['work']), m] for _, fp, m in world['writer'].open_files],
+                'impl_pending': impl_pending(world),
                 'tmp': sorted(v.decode() for v in listing(world['tmp']).values())}
 
     def token(self, world, path, mode):
